@@ -867,3 +867,49 @@ Proof.
   exists (xh_pre h ++ unhex "20786d6c6e733d27"), ((if xh_server h then unhex "3a73657276657227" else unhex "3a636c69656e7427") ++ xh_post h).
   split; [unfold xmpp_encode; rewrite <- !app_assoc; reflexivity|rewrite app_length; reflexivity].
 Qed.
+
+(* ---- MatcherSets.AnyMatch ---- *)
+Lemma any_go_stable sets : Forall (Forall stable_yn) sets -> stable_yn (any_match_go sets).
+Proof.
+  induction 1 as [|ms sets Hms _ IH]; intros p s H; cbn in *; [reflexivity|].
+  pose proof (mset_stable ms Hms) as Hst.
+  destruct (mset_match ms p) eqn:E; try (destruct H; discriminate).
+  - rewrite (Hst p s (or_introl E)), E. reflexivity.
+  - rewrite (Hst p s (or_intror E)), E. apply IH. exact H.
+Qed.
+Lemma any_stable sets : Forall (Forall stable_yn) sets -> stable_yn (any_match sets).
+Proof. intro H. destruct sets as [|ms sets]; [intros p s _; reflexivity|]. exact (any_go_stable _ H). Qed.
+
+Lemma any_go_no_iff sets p : any_match_go sets p = No <-> Forall (fun ms => mset_match ms p = No) sets.
+Proof.
+  induction sets as [|ms sets IH]; cbn; [split; [constructor|reflexivity]|].
+  destruct (mset_match ms p) eqn:E; split; intro H; try discriminate; try (inversion H; subst; congruence).
+  - constructor; [exact E|apply IH; exact H].
+  - inversion H; subst. apply IH. assumption.
+Qed.
+Lemma any_go_yes_iff sets p :
+  any_match_go sets p = Yes <->
+  exists a ms b, sets = a ++ ms :: b /\ Forall (fun ms' => mset_match ms' p = No) a /\ mset_match ms p = Yes.
+Proof.
+  induction sets as [|ms sets IH]; cbn.
+  - split; [discriminate|]. intros (a & ms & b & H & _). destruct a; discriminate.
+  - destruct (mset_match ms p) eqn:E.
+    + split; [|reflexivity]. intros _. exists [], ms, sets. repeat split; [constructor|exact E].
+    + rewrite IH. split.
+      * intros (a & ms' & b & -> & Ha & Hy). exists (ms :: a), ms', b. repeat split; [constructor; assumption|exact Hy].
+      * intros (a & ms' & b & Heq & Ha & Hy). destruct a as [|x a]; inversion Heq; subst; [congruence|].
+        inversion Ha; subst. exists a, ms', b. repeat split; assumption.
+    + split; [discriminate|]. intros (a & ms' & b & Heq & Ha & Hy). destruct a as [|x a]; inversion Heq; subst; [congruence|].
+      inversion Ha; subst. congruence.
+    + split; [discriminate|]. intros (a & ms' & b & Heq & Ha & Hy). destruct a as [|x a]; inversion Heq; subst; [congruence|].
+      inversion Ha; subst. congruence.
+    + split; [discriminate|]. intros (a & ms' & b & Heq & Ha & Hy). destruct a as [|x a]; inversion Heq; subst; [congruence|].
+      inversion Ha; subst. congruence.
+Qed.
+(* not is the negation of the OR whenever the OR is decided *)
+Lemma not_is_negated_any sets p : sets <> [] ->
+  (not_match sets p = Yes <-> any_match sets p = No) /\ (not_match sets p = No <-> any_match sets p = Yes).
+Proof.
+  intro Hne. destruct sets as [|ms0 sets0]; [congruence|]. unfold any_match.
+  split; [rewrite not_yes_iff, any_go_no_iff; tauto|rewrite not_no_iff, any_go_yes_iff; tauto].
+Qed.
